@@ -104,6 +104,20 @@ def run(res):
             if b[k] in (0, 1, 2, 3):
                 b[k] = 0x77
             files.append(("corrupt #%d of %s" % (pos, lbl), cs, bytes(b), None))
+    # entries too short to be an RPU (4..24 bytes with the start code): a truncated file, a doubled start code, a short
+    # garbage entry first / between valid ones / last / in a later chunk: an error, never a shorter list
+    for lbl, cs, data, exp in base[:3]:
+        offs = [i for i in range(len(data) - 4) if data[i : i + 4] == b"\x00\x00\x00\x01"]
+        last = offs[-1]
+        for cut in (0, 1, 7, 20):
+            files.append(("truncated %d bytes after the last start code of %s" % (cut, lbl), cs, data[: last + 4 + cut], None))
+        for pos in (0, len(offs) // 2, len(offs) - 1):
+            for junk in (b"", b"\x19", b"\x19\x08\x09" + bytes(r.randrange(4, 256) for _ in range(r.choice([2, 10, 17])))):
+                o = offs[pos]
+                files.append(("short entry (%d bytes) before entry %d of %s" % (len(junk), pos, lbl), cs, data[:o] + b"\x00\x00\x00\x01" + junk + data[o:], None))
+    short1 = b"\x00\x00\x00\x01" + R.escape(pool[0])
+    files.append(("valid entry then a bare start code", 10000, short1 + b"\x00\x00\x00\x01", None))
+    files.append(("short entry then a valid one", 10000, b"\x00\x00\x00\x01\x19\x08\x09\x44" + short1, None))
     lines = ["rpufile %d %s" % (cs, C.hexs(data)) for lbl, cs, data, exp in files]
     i = C.run_sharded(C.dvh, lines, shards=8)
     m = C.run_sharded(C.model, lines, shards=8, timeout=1500)
@@ -145,7 +159,7 @@ def run(res):
     res.coverage.update({
         "evaluations": 2 * len(lines) + ncli,
         "distinct_nontrivial": len(files),
-        "rule": "RPU files of 1..N entries (sizes 25..2500 bytes, some followed by zero bytes) whose start codes are steered to every offset -4..+4 around multiples of the read chunk size, several chunks per file, files that are an exact multiple of the chunk size, one corrupted entry first / middle / last / in a later chunk, empty file, file without start code; read through the library reader with the hook chunk sizes (>= 8192 so that reads bypass the 8 KiB BufReader) and with the real 100000; expected list = what was written; Coq model of the loop compared; distinct files counted",
+        "rule": "RPU files of 1..N entries (sizes 25..2500 bytes, some followed by zero bytes) whose start codes are steered to every offset -4..+4 around multiples of the read chunk size, several chunks per file, files that are an exact multiple of the chunk size, one corrupted entry first / middle / last / in a later chunk, entries too short to be an RPU (truncated file, doubled start code, short garbage entry at any position), empty file, file without start code; read through the library reader with the hook chunk sizes (>= 8192 so that reads bypass the 8 KiB BufReader) and with the real 100000; expected list = what was written; Coq model of the loop compared; distinct files counted",
         "chunk_sizes": sizes + [100000], "disagreements": nd,
         "samples": [f[0] for f in files[:3]] + [files[-1][0]],
     })
